@@ -533,6 +533,16 @@ def method_call(self, recv, name, pos, kw, node, fr, star=None, dstar=None):
         self._rebind(node.func.value, newv, fr)
         return NONE if name not in ('pop', 'setdefault', 'popitem') else T.mk_call('.' + name, [recv] + pos, kw)
     if name in ('get',) and pos:
+        da_ = recv.single_atom()
+        kc_ = pos[0].single_atom()
+        if da_ is not None and da_.kind == 'dict' and not kw and len(pos) <= 2 and (pos[0].const() is not None or (
+                kc_ is not None and kc_.kind == 'str')) and all(
+                k_.const() is not None or (k_.single_atom() is not None and k_.single_atom().kind == 'str') for k_, _ in da_.args):
+            # {literal keys}.get(constant key[, default]): the entry, or the default / None
+            for k_, v_ in da_.args:
+                if k_.key == pos[0].key:
+                    return v_
+            return pos[1] if len(pos) == 2 else NONE
         return T.mk_call('.get', [recv] + pos, kw)
     ra_t = recv.single_atom()
     if ra_t is not None and ra_t.kind == 'attr' and self.class_of(recv) is None:
